@@ -155,6 +155,8 @@ pub mod tstd {
     pub uninterp spec fn sw_tokens<'a>(it: core::str::SplitWhitespace<'a>) -> Seq<&'a str>;
     /// tokens still to come (the measure for termination)
     pub open spec fn sw_remaining(it: core::str::SplitWhitespace<'_>) -> nat { sw_tokens(it).len() }
+    pub assume_specification<'a>[str::trim](s: &'a str) -> (r: &'a str)
+        ensures r@ == crate::spec::str_trim(s@);
     pub assume_specification<'a>[str::split_whitespace](s: &'a str) -> (r: core::str::SplitWhitespace<'a>)
         ensures sw_tokens(r) == str_words(s), sw_tokens(r).len() <= usize::MAX;      // a string in memory has fewer than 2^64 tokens
     pub assume_specification<'a>[<core::str::SplitWhitespace<'a> as Iterator>::next](it: &mut core::str::SplitWhitespace<'a>) -> (r: Option<&'a str>)
@@ -537,6 +539,8 @@ pub mod spec {
     pub fn strip_prefix_lit<'a>(s: &'a str, p: &str) -> (r: Option<&'a str>)
         ensures match r { Some(x) => p@.is_prefix_of(s@) && x@ == s@.skip(p@.len() as int), None => !p@.is_prefix_of(s@) },
     { s.strip_prefix(p) }
+    /// `s.trim()` (uninterpreted pure function of the characters)
+    pub uninterp spec fn str_trim(s: Seq<char>) -> Seq<char>;
     pub uninterp spec fn str_trim_end_matches(s: Seq<char>, p: Seq<char>) -> Seq<char>;
     pub uninterp spec fn str_trim_start_matches(s: Seq<char>, p: Seq<char>) -> Seq<char>;
     #[verifier::external_body]
@@ -678,6 +682,21 @@ pub mod spec {
     pub fn to_string_w<T: core::fmt::Display>(x: &T) -> (r: String)
         ensures r@ == str_of(*x),
     { x.to_string() }
+    // R11b: the crate's printing trait PushPrint::to_pstring on a generic element
+    pub uninterp spec fn pstr_of<T>(x: T) -> Seq<char>;
+    #[verifier::external_body]
+    pub fn to_pstring_w<T: crate::push::stack::PushPrint>(x: &T) -> (r: String)
+        ensures r@ == pstr_of(*x),
+    { x.to_pstring() }
+    // R19: the two one-argument format! calls of the crate's printing functions
+    #[verifier::external_body]
+    pub fn format_sp_display<T: core::fmt::Display>(x: &T) -> (r: String)
+        ensures r@ == seq![' '] + str_of(*x),
+    { format!(" {}", x) }
+    #[verifier::external_body]
+    pub fn format_display<T: core::fmt::Display>(x: &T) -> (r: String)
+        ensures r@ == str_of(*x),
+    { format!("{}", x) }
     pub uninterp spec fn f32_to_usize_spec(x: f32) -> usize;
     pub uninterp spec fn f32_to_i32_spec(x: f32) -> i32;
     #[verifier::external_body]
